@@ -235,6 +235,29 @@ def _restrike(ctx, fi):
             ctx.check(good and len(srcs) == 1, "RESTRIKE", f"{FN}: boundary {kinds} copies {'/'.join(need)} of the open note", function=FN,
                       construct=f"boundary {kinds} does not copy {'/'.join(need)} from the open note",
                       message=f"`{short(c, 100)}`", file=fi.file, node=c)
+        # where the two messages go: the NOTE_OFF into the piece being closed; the NOTE_ON either onto the deferred queue (it is
+        # re-processed and registered as open in the next round) or straight into the next piece -- the latter only if the
+        # open-note table survives from one piece to the next
+        qs_, result_, cur_, wloop_, popped_ = _roles(fi)
+        cap_loop = next((a for a in ancestors(lp) if isinstance(a, ast.For) and a is not lp), None)
+        opens_defs = [s_ for s_ in ast.walk(fi.node) if isinstance(s_, ast.Assign) and isinstance(s_.targets[0], ast.Name) and src(s_.targets[0]) == src(it).split(".")[0]
+                      and ((isinstance(s_.value, ast.Call) and src(s_.value.func) == "dict") or isinstance(s_.value, ast.Dict))]
+        table_per_piece = any(cap_loop is not None and cap_loop in list(ancestors(d_)) for d_ in opens_defs)
+        for c in offs + ons:
+            call = next((a for a in ancestors(c) if isinstance(a, ast.Call) and call_method(a)[1] in ("add_message", "append", "_add_message_unsorted")), None)
+            dest = src(call_method(call)[0]).split(".")[0] if call is not None else None
+            if c in offs:
+                ctx.check(dest == cur_, "RESTRIKE", f"{FN}: the boundary NOTE_OFF closes the note in the piece that ends (`{dest}`)", function=FN,
+                          construct="boundary NOTE_OFF is not added to the piece that ends", message=f"destination `{dest}`, current piece `{cur_}`",
+                          file=fi.file, node=c)
+            else:
+                queued = bool(qs_) and dest == qs_[0]
+                ctx.check(queued or (dest is not None and dest != cur_ and not table_per_piece), "RESTRIKE",
+                          f"{FN}: the re-struck NOTE_ON reaches the next piece as a registered open note (`{dest}`)", function=FN,
+                          construct="re-struck note is not registered as open in the next piece",
+                          message=f"the NOTE_ON goes to `{dest}` {'(not the deferred queue) ' if not queued else ''}while the open-note table is "
+                                  f"{'re-created for every piece' if table_per_piece else 'kept across pieces'}: a note sounding across two boundaries is neither "
+                                  f"closed nor re-struck at the second one", file=fi.file, node=c)
     ctx.floor("boundary re-strike loops", restrike, 1)
 
 
@@ -313,8 +336,8 @@ def _dest(ctx, fi):
                       f"pushed into the next piece", file=fi.file, node=loop)
     if rem is None:
         return
-    tables = [s.targets[0].id for s in fi.node.body if isinstance(s, ast.Assign) and isinstance(s.targets[0], ast.Name)
-              and ((isinstance(s.value, ast.Call) and isinstance(s.value.func, ast.Name) and s.value.func.id == "dict") or isinstance(s.value, ast.Dict))]
+    tables = sorted({s.targets[0].id for s in ast.walk(fi.node) if isinstance(s, ast.Assign) and isinstance(s.targets[0], ast.Name)
+                     and ((isinstance(s.value, ast.Call) and isinstance(s.value.func, ast.Name) and s.value.func.id == "dict") or isinstance(s.value, ast.Dict))})
     opens = tables[0] if len(tables) == 1 else None
 
     def decide_factory(cap_left, fits):
